@@ -752,6 +752,29 @@ impl VerifSpec {
     }
 }
 
+/// The real `From<Piece> for Chunk` on the piece `{d(<format>)}` (a date formatter with one
+/// literal argument): `true` when the result is an error chunk.  The chunk is leaked.
+#[cfg(log4rs_verif)]
+#[doc(hidden)]
+pub fn verif_date_chunk_is_error(format: &str) -> bool {
+    let piece = Piece::Argument {
+        formatter: parser::Formatter {
+            name: "d",
+            args: vec![vec![Piece::Text(format)]],
+        },
+        parameters: Parameters {
+            fill: ' ',
+            align: Alignment::Left,
+            min_width: None,
+            max_width: None,
+        },
+    };
+    let chunk = Chunk::from(piece);
+    let is_error = matches!(chunk, Chunk::Error(_));
+    std::mem::forget(chunk);
+    is_error
+}
+
 /// Runs the real parser over `pattern` to exhaustion, leaking every piece (the pieces' drop
 /// glue is not the subject): number of pieces and how many of them are errors.
 #[cfg(log4rs_verif)]
